@@ -218,8 +218,42 @@ def native_order_witness():
     return None
 
 
+def native_heterogeneity_witness():
+    """two successive evaluations of an equation with a heterogeneity map that reads its own base coefficient: same
+    residual both times, caller's eq_params untouched"""
+    import warnings
+    from jinns.loss import FisherKPP
+    from jinns.parameters import Params
+    from jinns.utils._pinn import PINN
+
+    class M(eqx.Module):
+        w: jax.Array
+        def __call__(self, x):
+            return jnp.sin(jnp.sum(self.w * x))[None]
+    with warnings.catch_warnings():
+        warnings.simplefilter("ignore")
+        u = PINN(mlp=M(jnp.ones(2)), slice_solution=jnp.s_[0:1], eq_type="nonstatio_PDE", input_transform=lambda i, p: i,
+                 output_transform=lambda i, o, p: o)
+    params = Params(nn_params=u.params, eq_params={"D": jnp.array(0.3), "r": jnp.array(1.1), "g": jnp.array(0.7)})
+    dyn = FisherKPP(Tmax=1.0, eq_params_heterogeneity={"r": lambda t, x, u_, p: p.eq_params["r"] * (1.0 + 0.5 * x[0])})
+    before = snap(params)
+    t, x = jnp.array([0.3]), jnp.array([0.4])
+    r1 = np.asarray(dyn.evaluate(t, x, u, params))
+    r2 = np.asarray(dyn.evaluate(t, x, u, params))
+    if snap(params) != before:
+        return [f"FisherKPP.evaluate with a heterogeneity map modified the caller's eq_params (r is now {float(params.eq_params['r'])}); "
+                f"the same call gives {r1.tolist()} then {r2.tolist()}"]
+    if not np.allclose(r1, r2):
+        return [f"the same evaluation gives {r1.tolist()} then {r2.tolist()}"]
+    return None
+
+
 def native_witness_for(q, seed):
     try:
+        if "_DynamicLoss" in q:
+            w = native_heterogeneity_witness()
+            if w:
+                return w
         if "append_" in q or "make_cartesian_product" in q:
             return native_assembly_witness()[:3] or None
         fc, _ = _analysis()
